@@ -28,7 +28,7 @@ ASSUMPTIONS = [
   "MuJoCo 3.13 C (float64) mj_forward is the reference at the same float32-representable state; MuJoCo 3.13 refuses flex + implicit integrators, so only Euler / RK4 models are generated",
   "models that put_model refuses (quadratic interpolation, internal collisions, flex with hfield / SDF geoms, flex equality + sleeping) are counted as rejected, not as findings",
   "pre-solver fields use allowance 2e-5*scale + 50*measured reference noise (violation above 30x); contacts and constraint rows are compared as multisets keyed by (geom, flex, elem, vert) and (type, id); a contact whose reference distance is within 1e-5 of its activation margin, or whose key set changes under the ulp probe, is inconclusive",
-  "qacc is judged only when contact and row multisets matched, neither engine hit its iteration limit and the reference is stable under the probe (gating rule)",
+  "qacc is not part of the property statement: under the gating rule (contact and row multisets matched, no iteration limit, stable reference) its agreement is only tallied (gated_qacc_agrees / greyzone / differs); the single exception is FLEXSTRAIN + sparse Jacobian + Newton, where matched rows with a non-optimal result are reported",
 ]
 BUDGET = {"quick": 150, "thorough": 1500}
 CRASH_IS_VIOLATION = True  # a model accepted by put_model that kills the process inside mjw.forward cannot "agree with MuJoCo"
@@ -121,7 +121,7 @@ def run_crash_probe(case):
   env = dict(os.environ)
   env["PYTHONPATH"] = (core.REPO + ":" if core.REPO != "/repo" else "") + env.get("PYTHONPATH", "")
   cache = os.path.join(core.VERIF, ".cache", "release")
-  died, survived, other = 0, 0, []
+  died, survived, other, ran = 0, 0, [], P["repeat"]
   for k in range(P["repeat"]):
     try:
       p = subprocess.run(["/venv/bin/python", sp, cache, xp, str(P["noise"]), core.VERIF], capture_output=True, text=True, timeout=600, env=env)
@@ -132,18 +132,20 @@ def run_crash_probe(case):
     if p.returncode < 0 or p.returncode in (134, 139):
       died += 1
       tail = p.stderr[-600:]
+      ran = k + 1
+      break
     elif "SURVIVED" in p.stdout:
       survived += 1
     else:
       other.append((p.returncode, p.stderr[-300:]))
-  rec.cover(f"crash_probe_runs:{case['probe']}", P["repeat"])
+  rec.cover(f"crash_probe_runs:{case['probe']}", ran)
   rec.cover(f"crash_probe_died:{case['probe']}", died)
   if died:
-    rec.viol(P["sig"], f"child process running mjw.forward on an accepted model died from a signal in {died} of {P['repeat']} runs ({P['what']})", stderr_tail=tail, runs=P["repeat"], died=died)
+    rec.viol(P["sig"], f"child process running mjw.forward on an accepted model died from a signal in run {ran} of at most {P['repeat']} ({P['what']})", stderr_tail=tail, runs=ran, died=died)
   if other and not died:
     rec.inconcl(f"crash probe ended abnormally without a signal: {other[:2]}"[:200])
   rec.nontrivial("crash", case["probe"])
-  rec.sample = {"probe": case["probe"], "runs": P["repeat"], "died": died, "survived": survived}
+  rec.sample = {"probe": case["probe"], "runs": ran, "died": died, "survived": survived}
   return rec.result()
 
 
@@ -722,7 +724,14 @@ def run_case(case):
     if gated:
       rec.count("worlds_gated")
       sc = max(1.0, float(np.abs(ref["qacc"]).max()))
-      judge(rec, "qacc", got["qacc"][w][: mjm.nv] / sc, ref["qacc"] / sc, 1e-3, noise["qacc"] / sc, suffix=(":flexstrain:sparse-newton" if (flexstrain and sparse_newton) else ""), ctx=ctx)
+      if flexstrain and sparse_newton:
+        # the one post-solver deviation attributed to a mechanism (rows agree, result is not their optimum)
+        judge(rec, "qacc", got["qacc"][w][: mjm.nv] / sc, ref["qacc"] / sc, 1e-3, noise["qacc"] / sc, suffix=":flexstrain:sparse-newton", ctx=ctx)
+      else:
+        # qacc is outside the property statement: agreement under the gate is tallied as evidence, never a verdict
+        errq = float(np.abs(got["qacc"][w][: mjm.nv] / sc - ref["qacc"] / sc).max()) if np.all(np.isfinite(got["qacc"][w][: mjm.nv])) else float("inf")
+        bq = 1e-3 + 50 * noise["qacc"] / sc
+        rec.count("gated_qacc_agrees" if errq <= bq else ("gated_qacc_greyzone" if errq <= 30 * bq else "gated_qacc_differs"))
     else:
       rec.count("worlds_ungated")
   for f in feat:
@@ -754,7 +763,6 @@ def requirements(agg, tier):
     unmet.append("fewer than 20 worlds with non-zero flex spring forces")
   if agg["distinct"] < 30:
     unmet.append("fewer than 30 distinct non-trivial cases")
-  g, u = agg["tally"].get("worlds_gated", 0), agg["tally"].get("worlds_ungated", 0)
-  if g + u and g < 0.5 * (g + u):
-    unmet.append(f"gated fraction {g}/{g + u} below 50%")
+  if cov.get("rows:flex-equality", 0) + cov.get("rows:contact", 0) < 100:
+    unmet.append("fewer than 100 constraint rows compared")
   return unmet
